@@ -1,6 +1,6 @@
-\* exhaustive: every history of up to 4 manager/environment actions from every initial state of the six scenarios
+\* exhaustive: every history of up to 5 manager/environment actions from every initial state of the six scenarios
 CONSTANTS CompArea <- McCompArea  Holds <- McHolds  NNuc = 4  AW <- McAW  NameRev = FALSE  TempNuc = 2
-  Scenarios <- McScenarios  ScnOf <- McScnOf  MaxLevel = 5
+  Scenarios <- McScenarios  ScnOf <- McScnOf  MaxLevel = 6
 INIT Init
 NEXT Next
 CONSTRAINT Bound
